@@ -291,12 +291,29 @@ def run(ck, ctx):
             ck.ob("R09.6", f"a cloud above the penultimate segment gives exactly zero {nm}", ok, v, fn,
                   gj.show(v, 2))
         # masked store with constant 0 ; R09.7 consumers read the masked version
-        sc = [n for n in walk([den, ang]) if n.op == "Scatter" and any(x is c2 for x in walk([n.args[1]]))]
-        ck.floor("R09.7", len(sc), 1, "stores under the cloud mask")
-        for s_ in sc:
-            ck.ob("R09.6", "light emitted below the cloud top is set to exactly 0", zero(s_.args[2]), s_, fn,
-                  gj.show(s_.args[2], 2))
-            pre = s_.args[0]
+        # the cloud top may decide WHICH light is removed, never WHERE another quantity is evaluated
+        INDEXERS = ("numpy.argmax", "numpy.argmin", "numpy.argsort", "numpy.searchsorted", "numpy.nonzero",
+                    "numpy.flatnonzero", "numpy.digitize", "numpy.unravel_index", "numpy.argwhere", "numpy.nanargmax",
+                    "numpy.nanargmin", "numpy.argpartition", "numpy.lexsort")
+        for n in walk([den, ang]):
+            is_idx = (n.op == "Call" and n.args and n.args[0].op == "Ext" and n.args[0].attr in INDEXERS) or \
+                (n.op == "MCall" and n.attr[0] in ("argmax", "argmin", "argsort", "searchsorted", "nonzero"))
+            if is_idx and dep.depends_on(n, top):
+                ck.ob("R09.6", f"no index computation depends on the cloud top [{gj.show(n, 2)}]", False, n, fn,
+                      "the cloud changes WHERE a quantity is evaluated (e.g. the shower-maximum step), so more than "
+                      "the light below the cloud top is affected", construct=f"{fn}: index computation depends on "
+                      "the cloud top")
+        # zero-fill under the cloud mask: a masked store or a where(mask, 0, x)
+        sc = []
+        for n in walk([den, ang]):
+            if n.op == "Scatter" and any(x is c2 for x in walk([n.args[1]])):
+                sc.append((n, n.args[2], n.args[0]))
+            elif is_ext_call(n, "numpy.where") and len(n.args) == 4 and any(x is c2 for x in walk([n.args[1]])):
+                sc.append((n, n.args[2], n.args[3]))
+        ck.floor("R09.7", len(sc), 1, "zero-fills under the cloud mask")
+        for s_, zval, pre in sc:
+            ck.ob("R09.6", "light emitted below the cloud top is set to exactly 0", zero(zval), s_, fn,
+                  gj.show(zval, 2))
             leak = cone_has(den, pre, except_under=[s_]) or cone_has(ang, pre, except_under=[s_])
             ck.ob("R09.7", "every consumer of the per-step yield reads the cloud-masked version", not leak, s_, fn,
                   "a result also depends on the unmasked yield" if leak else "")
